@@ -55,10 +55,21 @@ class Recorder:
         return self.table[k]
 
 
+def _vec(spec, name, vals):
+    """a value vector; with spec["declared"] an int column holding None is built with a *declared* plain dtype
+    (`Vector(vals, dtype=int)`, non-nullable by construction): aggregates must go by the values, not by the schema"""
+    from serif import Vector
+    vals = list(vals)
+    if spec.get("declared") and any(v is None for v in vals) and any(v is not None for v in vals) \
+            and all(v is None or (type(v) is int) for v in vals):
+        return Vector(vals, dtype=int, name=name)
+    return Vector(vals, name=name)
+
+
 def build(spec):
     from serif import Vector, Table
-    t = Table([Vector(list(vals), name=name) for name, vals in spec["cols"]])
-    ext = [Vector(list(vals), name=name) for name, vals in spec.get("ext", [])]
+    t = Table([_vec(spec, name, vals) for name, vals in spec["cols"]])
+    ext = [_vec(spec, name, vals) for name, vals in spec.get("ext", [])]
     return t, ext
 
 
@@ -259,7 +270,10 @@ def _reduce(spec):
 
 KEYPOOLS = [[0, 1, None], ["a", "b", None], [1, True, 1.0, 2, None], ["a", "", "b", 0, None], [None, 5],
             ["x", "y", "z", "w"], [0, 1, 2, 3, 4, 5, None], [False, 0, 0.0, "0", None]]
-VALPOOLS = [[1, 2, None], [None, None, 3], list(range(-4, 9)) + [None, None], [0, 7], [None], [5, 5, 6, None], [100, -100, 3, None]]
+VALPOOLS = [[1, 2, None], [None, None, 3], list(range(-4, 9)) + [None, None], [0, 7], [None], [5, 5, 6, None], [100, -100, 3, None],
+            # large offset, small spread: a variance formula that cancels catastrophically (sum of squares minus square of sum)
+            # is far off here while the two-pass textbook formula is exact
+            [1700000001, 1700000002, 1700000003, None], [123456789, 123456790, 123456791]]
 NAMES = ["k", "x", "y", "X Y", "k", "x_sum", "sum", "key", "col", "", None, "1a", "a__1", "K", "naïve", "x sum", "count"]
 APPLY_NAMES = ["z", "x_sum", "k", "key", "x_mean2", "custom name", "x_sum2"]
 
@@ -330,6 +344,8 @@ def random_spec(rng, fam, interleave=False):
     if rng.random() < 0.7:
         over[0] = mk(("t", 0))
     spec = {"fam": fam, "cols": cols, "ext": ext, "over": over, "apply": [], "single": []}
+    if rng.random() < 0.12:
+        spec["declared"] = True
     if valrefs:
         for f in FNS:
             if rng.random() < 0.5:
